@@ -100,4 +100,29 @@ theorem hybrid_steps_covered :
     (classify ["report_padding_dp", "padding_dp_pass#", "send_num_fake_records"] = some "count") ∧
     (classify ["prf_key_gen", "x"] = none) := by decide
 
+/-- **Every multiplication of a DZKP-validated phase is recorded in the validator's batch** (b14, seed C02c).
+Over the call sites regenerated from the sources: (1) a multiplication invoked through the context dispatch
+(`SecureMul::multiply`, `BooleanArrayMul::multiply`) under a DZKP-upgraded malicious context is `zkp_multiply`, which
+pushes the gate's `(x, y, prss, z)` segment into the batch; (2) every site in non-test code below `protocol/` that
+names an unrecorded routine (`semi_honest_multiply`, `sh_multiply`, `multiplication_protocol`) either records the
+segment itself (`zkp_multiply`) or belongs to a routine that never runs on a gate of a DZKP phase (semi-honest
+context impls, MAC multiplication / upgrade / check-zero, shuffle tags). A protocol function that bypasses the
+dispatch (e.g. `bool_or` calling `semi_honest_multiply`) adds a site for which neither holds. -/
+theorem dzkp_multiplications_recorded :
+    (∀ t ∈ ["SecureMul", "BooleanArrayMul"],
+      recorded IpaVerif.Generated.dzkpDispatch IpaVerif.Generated.zkpMultiplyBody (.dispatched t) = true) ∧
+    (∀ s ∈ IpaVerif.Generated.directMulSites,
+      recorded IpaVerif.Generated.dzkpDispatch IpaVerif.Generated.zkpMultiplyBody (.direct s) = true
+        ∨ outsideDzkp s = true) := by decide +kernel
+
+/-- The obligation is not vacuous: the call site introduced by seed C02c is rejected, and a `zkp_multiply` that
+forgets to push records nothing. -/
+theorem dzkp_multiplications_recorded_counterexamples :
+    (let s := ("protocol/boolean/or.rs", "bool_or", "semi_honest_multiply")
+     recorded IpaVerif.Generated.dzkpDispatch IpaVerif.Generated.zkpMultiplyBody (.direct s) = false
+       ∧ outsideDzkp s = false) ∧
+    recorded IpaVerif.Generated.dzkpDispatch
+      ["let z = multiplication_protocol(&ctx, record_id, a, b, &prss_left, &prss_right).await?;", "Ok(z)"]
+      (.dispatched "SecureMul") = false := by decide +kernel
+
 end IpaVerif.C02
